@@ -4,3 +4,11 @@ import OsacaVerif.Model.RegDep
 import OsacaVerif.Spec.RegUniverse
 import OsacaVerif.Lemmas.Text
 import OsacaVerif.Props.C12
+import OsacaVerif.Gen.WorkersConsts
+import OsacaVerif.Model.Workers
+import OsacaVerif.Model.LcdPost
+import OsacaVerif.Spec.LcdSet
+import OsacaVerif.Lemmas.Workers
+import OsacaVerif.Lemmas.LcdPost
+import OsacaVerif.Props.C16
+import OsacaVerif.Props.C19
